@@ -11,6 +11,7 @@ import (
 	"sync"
 	"time"
 
+	"github.com/xelaj/mtproto/zverif/freepass"
 	"github.com/xelaj/mtproto/zverif/sched"
 	"github.com/xelaj/mtproto/zverif/vr"
 )
@@ -49,12 +50,9 @@ func (x *XSpec) freePass() {
 	runtime.GOMAXPROCS(runtime.NumCPU())
 	n := x.FreeRounds
 	if n == 0 {
-		n = 60
-		if x.Run.Thorough() {
-			n = 1000
-		}
+		n = freepass.Rounds(x.Run)
 	}
-	RacePass(x.Run, x.FreeSet, n)
+	freepass.Run(x.Run, x.FreeSet, n)
 }
 
 func (x *XSpec) find(name string) *Scenario {
